@@ -7,7 +7,8 @@ FUNCTIONS = ['<U as ::core::cmp::PartialEq>::eq (union)', '<U as ::core::hash::H
              '<U as ::core::clone::Clone>::clone (union)', '<U as ::core::default::Default>::default (union)']
 # type -> (size, align, has internal padding)
 TY = {'u8': (1, 1, False), 'u16': (2, 2, False), '[u8; 3]': (3, 1, False), 'u32': (4, 4, False), '(u8, u16)': (4, 2, True),
-      'u64': (8, 8, False), '[u8; 5]': (5, 1, False), '[u16; 3]': (6, 2, False), 'G': (1, 1, False)}
+      'u64': (8, 8, False), '[u8; 5]': (5, 1, False), '[u16; 3]': (6, 2, False), 'G': (1, 1, False),
+      '()': (0, 1, False), '[u32; 0]': (0, 4, False)}
 FN = ['a', 'b', 'c']
 
 PRE = '''use crate::support::dbg::*;
@@ -60,7 +61,7 @@ impl<'a> Debug for Or<'a> {{ fn fmt(&self, f: &mut Formatter<'_>) -> fmt::Result
 fn view(a: &Al<{n}>) -> &Un{ga} {{ unsafe {{ &*(a.0.as_ptr() as *const Un{ga}) }} }}
 '''
     hs = []
-    h = Harness('h_eq', unwind=n + 2, covers=['equal bytes', 'different bytes'])
+    h = Harness('h_eq', unwind=n + 2, covers=['equal bytes'] + (['different bytes'] if n > 0 else []))
     body += h.attrs() + f'''pub fn h_eq() {{
     let a = Al::<{n}>(Sym::sym());
     let b = Al::<{n}>(Sym::sym());
@@ -119,7 +120,7 @@ fn view(a: &Al<{n}>) -> &Un{ga} {{ unsafe {{ &*(a.0.as_ptr() as *const Un{ga}) }
             init = '[' + ', '.join(str(x) for x in pat[:n]) + ']'
             tag = f'c{k}'
         for alt in (False, True):
-            if alt and (pat == 'sym' or n > pretty_max):
+            if alt and (pat == 'sym' or n > pretty_max or n == 0):
                 continue
             h = Harness(f'h_debug_{tag}_{"pretty" if alt else "compact"}', unwind=(12 * n + 40) if alt else (6 * n + 30), covers=['reached'], stubs=[STUB] if alt else [])
             body += h.attrs() + f'''pub fn {h.name}() {{
@@ -141,7 +142,7 @@ PATS = [[0] * 8, [255] * 8, [1, 20, 133, 7, 99, 250, 10, 64]]
 
 def gen(tier, seed):
     layouts = [['u8'], ['u16'], ['u8', 'u16'], ['[u8; 3]'], ['[u8; 3]', 'u16'], ['u32', 'u8'], ['(u8, u16)', 'u8'], ['[u8; 5]', 'u16', 'u8'],
-               ['u64', 'u8'], ['[u16; 3]', 'u32'], ['u16', 'u32', '[u8; 3]'], ['u8', 'u8'], ['[u8; 5]']]
+               ['u64', 'u8'], ['[u16; 3]', 'u32'], ['u16', 'u32', '[u8; 3]'], ['u8', 'u8'], ['[u8; 5]'], ['()', '[u32; 0]']]
     mods = []
     n = 0
     rng = random.Random(seed * 41 + 7)
@@ -168,11 +169,11 @@ def gen(tier, seed):
     return mods
 
 
-RULE = ('one config = union layout (1-3 fields from u8,u16,[u8;3],u32,(u8,u16),u64,[u8;5],[u16;3]; sizes 1..8, alignments 1..8, one generic at u8) x name {default, renamed, false} x default designation; '
+RULE = ('one config = union layout (1-3 fields from u8,u16,[u8;3],u32,(u8,u16),u64,[u8;5],[u16;3]; sizes 0..8 (one zero-sized union), alignments 1..8, one generic at u8) x name {default, renamed, false} x default designation; '
         'eq/hash/clone: every byte of the value arbitrary (the union is viewed in place over an aligned byte array, so no byte is uninitialised); Default under a symbolic environment; '
         'Debug compared with debug_tuple(name).field(&bytes) / Debug::fmt(bytes) on fixed byte patterns (0x00.., 0xFF.., a ramp) in compact mode for every size and in {:#?} mode for sizes <= 4 (quick) / <= 8 (thorough), and with arbitrary bytes for size 1 in compact mode. '
         'Non-trivial = all harnesses passed and their witnesses SATISFIED.')
-BOUNDS = dict(sizes='1..8', max_fields=3, debug_bytes='fixed patterns per harness; arbitrary for size 1 (decimal formatting of symbolic u8 costs ~80 s per byte)',
+BOUNDS = dict(sizes='0..8', max_fields=3, debug_bytes='fixed patterns per harness; arbitrary for size 1 (decimal formatting of symbolic u8 costs ~80 s per byte)',
               outside=['that the impls are generated only behind `unsafe` (a rejection fact, C13 territory)', 'unions larger than 8 bytes', 'values containing uninitialised padding'])
 ASSUME = ['Kani 0.68 / CBMC 6.11 / CaDiCaL; rustc nightly-2026-08-21 x86_64 layout', 'STUB in {:#?} harnesses: CharSearcher::next_match model (validated natively in the C06 run and here)',
           'recording Hasher packs slices up to 8 bytes exactly']
